@@ -667,6 +667,11 @@ def search_rules(rep, prog):
     else:
         mui = ("mu", li_, ni[0])
         nPx, nIx = inner["next"].get(nP), inner["next"].get(nI)
+    if nPx is None and nIx is None and scan_for is None:
+        # neither the matrix nor the name list is updated inside the scan: the accepted node's bookkeeping was moved out of it (after the `if not found: raise`)
+        rep.unk("INDEX.pairing", fwhere(f2, inner["node"]), "the remaining matrix and the name list are not updated inside the scan loop: bookkeeping outside the scan is not read")
+        rep.unk("INDEX.real-names", fwhere(f2, inner["node"]), "the orientation of the removed node's edges is not written inside the scan loop: not read")
+        return
     rng_ = ("ext", "range", (("ext", "len", (muP,), ()),), ())
     allbut = ("ext", "list", (("binop", "-", ("ext", "set", (rng_,), ()), ("set", (mui,))),), ())
     el_ = ("elem", rng_)
